@@ -170,6 +170,19 @@ def run(spec, out):
                 f = getattr(einx, op)
                 out.distinct_key(f"wrong-arity|{op}|{extra}|{np.dtype(dt).name}")
                 guarded(out, f"{op}:wrong-arity", lambda: f(d, *xs), xs, {}, set(), {"op": op, "desc": d, "dtypes": [str(x.dtype) for x in xs]})
+    # associative scalar operations with three and four operands (valid calls): every operand is read-only, also the last one
+    for op in ("logical_and", "logical_or", "logical_xor", "add", "multiply", "maximum", "minimum", "logaddexp"):
+        if not hasattr(einx, op):
+            continue
+        for nops in (3, 4):
+            for dt in (np.float64, np.bool_, np.int64):
+                for d_last in ("a b", "b a"):
+                    xs = [(np.arange(6).reshape(2, 3) % (k + 2)).astype(dt) for k in range(nops - 1)] + [(np.arange(6).reshape((2, 3) if d_last == "a b" else (3, 2)) % 2).astype(dt)]
+                    d = ", ".join(["a b"] * (nops - 1) + [d_last]) + " -> a b"
+                    f = getattr(einx, op)
+                    out.distinct_key(f"nary|{op}|{nops}|{np.dtype(dt).name}|{d_last}")
+                    out.count("nary_scalar_op_calls")
+                    guarded(out, f"{op}:nary", lambda: f(d, *xs), xs, {}, set(), {"op": op, "desc": d, "dtypes": [str(x.dtype) for x in xs]})
     for extra in (1,):
         xs = [np.array([True, False, True, False]), np.arange(4.0), np.arange(4.0) + 10, np.full(4, 9.0)]
         guarded(out, "where:wrong-arity", lambda: einx.where("a, a, a, a -> a", *xs), xs, {}, set(), {"op": "where"})
